@@ -254,13 +254,12 @@ func (l *queue) Empty() bool {
 	l.mu.RLock()
 	defer l.mu.RUnlock()
 
-	if l.head == nil || l.tail == nil || len(l.segments) == 0 {
-		return true
+	for _, s := range l.segments {
+		if !s.empty() {
+			return false
+		}
 	}
-	if l.head == l.tail && l.head.pos == l.tail.filePos()-footerSize {
-		return true
-	}
-	return false
+	return true
 }
 
 // diskUsage returns the total size on disk used by the queue
@@ -765,6 +764,13 @@ func (l *segment) close() error {
 	}
 	l.file = nil
 	return nil
+}
+
+// empty returns true if the segment has no unread block, on disk or buffered.
+func (l *segment) empty() bool {
+	l.mu.RLock()
+	defer l.mu.RUnlock()
+	return l.pos == l.size-footerSize && (l.buf == nil || l.buf.Len() == 0)
 }
 
 func (l *segment) lastModified() (time.Time, error) {
